@@ -67,7 +67,7 @@ class CheckPoll(Contract):
                 ('unchanged-otherwise', Implies(Not(r), And(n1 == n0, Implies(Not(n0), v1 == v0))))]
 
 
-@contract('lomond.session.WebsocketSession._check_ping_timeout', serves=['C15'])
+@contract('lomond.session.WebsocketSession._check_ping_timeout', serves=['C15', 'C07'])
 class CheckPingTimeout(Contract):
     """True iff a timeout is configured (truthy) and more than that has passed since the last pong"""
     def variants(self):
@@ -95,7 +95,7 @@ class CheckPingTimeout(Contract):
         return [('fires-iff-silent-longer-than-timeout', r == And(Not(tn), T_ != 0, to_real(a.session_time) - lp > T_))]
 
 
-@contract('lomond.session.WebsocketSession._check_close_timeout', serves=['C15'])
+@contract('lomond.session.WebsocketSession._check_close_timeout', serves=['C15', 'C07'])
 class CheckCloseTimeout(Contract):
     """raises _ForceDisconnect iff a close timeout is configured (truthy), a Close was sent, and
     session_time >= sent_close_time + close_timeout"""
@@ -189,7 +189,7 @@ class CheckAutoPing(Contract):
         return out
 
 
-@contract('lomond.session.WebsocketSession._send_pong', serves=['C14', 'C09'])
+@contract('lomond.session.WebsocketSession._send_pong', serves=['C14', 'C09', 'C08', 'C01'])
 class SendPongInternal(Contract):
     """one Pong with the event's payload when the connection is open, nothing otherwise; never
     raises (a refused or failed write is dropped silently)"""
